@@ -7,12 +7,15 @@ one hook with a kubernetes binding "main", optionally a second kubernetes bindin
 binding (schedule / kubernetesValidating / kubernetesMutating / kubernetesCustomResourceConversion / onStartup);
 options name given or default, jqFilter, keepFullObjectsInMemory, group, includeSnapshotsFrom, configVersion v0/v1.
 The state machine is the life of the hook (objects existing before, Synchronization, cluster changes, crontab ticks,
-admission / conversion requests); every state with a non-empty list of queued contexts is one case, and the
+admission / conversion requests - the last two also BEFORE the kubernetes bindings are enabled: BootTick / BootRequest,
+a context that carries `snapshots` rendered while the named kubernetes bindings have no monitor, e.g. a webhook request
+answered while the hook's EnableKubernetesBindings task is still queued or keeps failing); every state with a non-empty list of queued contexts is one case, and the
 reference function Render gives the file the hook must read in that state: the set of keys of every array item and
 the abstract values (binding, type, watchEvent, groupName, which object in which state an `object` shows, that
 `filterResult` is the projection of that very object, which objects `objects` and every snapshot list at the moment
-of the run).  TLC checks DocumentedKeysOnly, RequiredKeysPresent, TypePerKind, SnapshotsIff, SnapshotKeys,
-ObjectOmittedIff, FilterResultIff, FilterResultIsJqOfObject, SnapshotsAreCurrent, EventObjectIsEventTime, NoCrash on
+of the run; for a binding that is not enabled: the key is present and the list is EMPTY, never null).  TLC checks DocumentedKeysOnly, RequiredKeysPresent, TypePerKind, SnapshotsIff, SnapshotKeys,
+ObjectOmittedIff, FilterResultIff, FilterResultIsJqOfObject, SnapshotsAreCurrent, SnapshotsBeforeEnable,
+EventObjectIsEventTime, NoCrash on
 every state and prints every case with the expected file (never recomputed here or in Go).
 
 Binding (R): `bctx run` executes every case on the real code: generated hook config -> LoadAndValidate ->
@@ -28,7 +31,8 @@ object the harness created when the full object is omitted).
 
 What the oracle demands: exactly the keys Render gives (documented keys only, required keys present, `snapshots`
 iff group/includeSnapshotsFrom give a non-empty list, `object` iff keepFullObjectsInMemory, `filterResult` iff
-jqFilter), the values above, `objects` / snapshot lists as multisets (the order is C02's business).
+jqFilter), the values above, `objects` / snapshot lists as multisets (the order is C02's business). `objects` and every
+value of `snapshots` must be a JSON array: `null` (a nil Go slice) is a failure, signature .../not-an-array.
 
 Excluded and why:
   * the number of array items (combining / group compaction is C07): a different length is a DIVERGENCE note;
@@ -74,7 +78,7 @@ CATALOGUE = [
 OBJECT_VALUED = {f for f, k in CATALOGUE if "object" in k}
 
 INVS = ("DocumentedKeysOnly RequiredKeysPresent TypePerKind SnapshotsIff SnapshotKeys ObjectOmittedIff FilterResultIff "
-        "FilterResultIsJqOfObject SnapshotsAreCurrent EventObjectIsEventTime NoCrash")
+        "FilterResultIsJqOfObject SnapshotsAreCurrent SnapshotsBeforeEnable EventObjectIsEventTime NoCrash")
 
 
 def case_key(c):
@@ -295,6 +299,11 @@ def check_c09(ctx):
     ctx.cov["filters_used_on_main"] = dict(filt_used)
     ctx.cov["unsteerable_event_suppressed"] = unsteer
     ctx.cov["array_length_divergences"] = diverge
+    before = sum(1 for c, r in zip(cases, results) if not c.get("enabled", True) and r.get("ok") is not None
+                 and any("snapshots" in e["keys"] for e in c["expect"]))
+    ctx.cov["cases_with_snapshots_rendered_before_kubernetes_bindings_are_enabled"] = before
+    if not before:
+        raise Infra("no case renders `snapshots` while the kubernetes bindings are not enabled")
     for c, r in list(zip(cases, results))[:: max(1, len(cases) // 5)][:5]:
         ctx.sample({"cfg": c["cfg"], "init": c["init"], "steps": c["steps"], "filterMain": c["filterMain"],
                     "expect": [{"type": e["type"], "keys": e["keys"]} for e in c["expect"]],
@@ -315,7 +324,8 @@ MANIFEST = {
     "C09": dict(
         text="TLC enumerates spec/BindingContext (reference rendering of the binding context file transcribed from HOOKS.md / "
              "BINDING_*.md: binding kind x group x includeSnapshotsFrom x jqFilter x keepFullObjectsInMemory x v0/v1 x context type x "
-             "0-2 objects x arrays of 1-3 contexts, with cluster changes between event and run) and checks DocumentedKeysOnly, "
+             "0-2 objects x arrays of 1-3 contexts, with cluster changes between event and run, schedule / admission / conversion "
+             "contexts with snapshots also before the kubernetes bindings are enabled: every key present, empty arrays) and checks DocumentedKeysOnly, "
              "RequiredKeysPresent, SnapshotsIff, ObjectOmittedIff, FilterResultIsJqOfObject and companions on every state; every state "
              "with queued contexts is replayed through the real pipeline (LoadAndValidate, HookController, real informers on a fake "
              "cluster, CombineBindingContextForHook, UpdateSnapshots, ConvertBindingContextList.Json, for a sample Hook.Run with a "
